@@ -163,7 +163,15 @@ def check_oracle(rep, g, res, gi):
         r1 = P[1] + z[1] * X - w[1]
         resid = (r0 * r0 + r1 * r1).sqrt()
         p2 = P[0] * P[0] + P[1] * P[1]
-        tol2 = Decimal("1e-9") * abs(X) + Decimal("1e-11") * p2.sqrt() * scale + Decimal("1e-300")
+        # |P|^2 - X = f(X) with f(X*) = 0 and f'(X*) = -sqrt(D): the mismatch is sqrt(D) * (error of X) + 2|P| * residual.
+        # X = 2|w|^2 / (b + sqrt(D)) is computed with relative error ~ eps * (1 + (b^2 + 4|z|^2|w|^2) / (2 sqrt(D) (b + sqrt(D))))
+        # (cancellation in D = b^2 - 4|z|^2|w|^2), so in absolute terms:
+        bq = 2 * (w[0] * z[0] + w[1] * z[1]) + 1
+        sD = max(Dd, Decimal(0)).sqrt()
+        den = abs(bq + sD) + Decimal("1e-300")
+        EPS = Decimal(2) ** -52
+        tol2 = (64 * EPS * abs(X) * (1 + sD + (bq * bq + 4 * az * aw) / (2 * den))
+                + 4 * p2.sqrt() * resid + Decimal("1e-12") * abs(X) + Decimal("1e-300"))
         what = None
         if resid > Decimal("1e-10") * scale:
             what = f"psi' + z|psi'|^2 != w (residual {float(resid):.3e}, scale {float(scale):.3e})"
